@@ -51,14 +51,17 @@ def delSpec (ni : String) (op : Option AFTOperationC) (niKnown niValid : String 
             | .nothing => ([⟨op.Id⟩], [], none, call)            -- was not installed (or a next-hop): acknowledged
             | .nhg g => ([⟨op.Id⟩], [], none, call ++ g.NextHop.map (fun m => Eff.decNHRef ni m.Key))
             | .top aft key o =>
-              match refErr ni o.NextHopGroupNetworkInstance with
-              | some err => ([], [], some err, call)
-              | none =>
-                let effs := call ++ [Eff.decNHGRef (refName ni o.NextHopGroupNetworkInstance) o.NextHopGroup,
-                                      Eff.resolvedHook constants_Delete ni aft key]
-                match hookErr with
-                | none => ([⟨op.Id⟩], [], none, effs)
-                | some _ => ([⟨op.Id⟩], [], some ⟨.Unknown, .none⟩, effs)
+              -- the entry is gone: its group gives back one reference — unless the group's instance
+              -- is one the RIB does not know (possible only without the check function), where there
+              -- is no counter; the DELETE is acknowledged and announced either way
+              let effs := call ++
+                (match refErr ni o.NextHopGroupNetworkInstance with
+                 | some _ => []
+                 | none => [Eff.decNHGRef (refName ni o.NextHopGroupNetworkInstance) o.NextHopGroup]) ++
+                [Eff.resolvedHook constants_Delete ni aft key]
+              match hookErr with
+              | none => ([⟨op.Id⟩], [], none, effs)
+              | some _ => ([⟨op.Id⟩], [], some ⟨.Unknown, .none⟩, effs)
 
 theorem loop1_eq (ni niR : String) (hookErr : Option Status) (op : AFTOperationC) :
     ∀ (l : List OrigNHGMember) (effs : List Eff),
@@ -118,6 +121,22 @@ theorem del_group (ni : String) (o : AFTOperationC) (x : Option NHGEntryC) (g : 
       ([⟨o.Id⟩], [], none, [Eff.delNHG ni x] ++ g.NextHop.map (fun m => Eff.decNHRef ni m.Key)) := by
   rw [gen_deleteEntry]
   simp [delSpec, hk, hv, he, afterOf, delEff]
+
+/-- a DELETE that has removed an IPv4, IPv6 or MPLS entry is acknowledged and announced whatever the
+lookup of the group's instance says (the repair of D24: before it, an unknown instance — reachable
+without the check function — made `DeleteEntry` return an error *after* the entry was gone); the
+counter is given back exactly when the instance is known -/
+theorem del_removed_top (ni : String) (o : AFTOperationC) (e : AFTEntry) (niKnown niValid : String → Bool)
+    (t : OrigTop) (origNHG : Option OrigNHG) (refName : String → String → String) (refErr : String → String → Option Status)
+    (aft : Nat) (key : AnyKey)
+    (hk : niKnown ni = true) (hv : niValid ni = true) (he : o.Entry = some e) (ha : afterOf (some t) origNHG e = .top aft key t) :
+    (Gen.deleteEntry ni (some o) niKnown niValid true (some t) origNHG none refName refErr none).1 = [⟨o.Id⟩] ∧
+    (Gen.deleteEntry ni (some o) niKnown niValid true (some t) origNHG none refName refErr none).2.1 = [] ∧
+    (Gen.deleteEntry ni (some o) niKnown niValid true (some t) origNHG none refName refErr none).2.2.1 = none ∧
+    Eff.resolvedHook constants_Delete ni aft key ∈
+      (Gen.deleteEntry ni (some o) niKnown niValid true (some t) origNHG none refName refErr none).2.2.2 := by
+  rw [gen_deleteEntry]
+  simp [delSpec, hk, hv, he, ha]
 
 theorem gen_ribdel_translated : Gen.deleteEntry_problem = none := rfl
 
